@@ -68,7 +68,7 @@ static Op make_op(int kind, int method, Rng& rng, int universe, uint64_t& vid)
     op.k     = (int)rng.below((uint64_t)universe);
     op.v     = ++vid;
     op.allow = 1 + (int)rng.below(3);
-    op.peek  = kind_has_peek(kind) && rng.chance(1, 3);
+    op.peek  = kind_has_peek(kind) && rng.chance(1, 2);
     static const int64_t ttls[] = {0, 1, 2, 5, 20};
     op.ttl                      = ttls[rng.below(5)];
     if (op_is_range(method))
@@ -91,7 +91,7 @@ int main(int argc, char** argv)
 {
     int         kind = LRU, threads = 4, bursts = 20, ops_per_burst = 400;
     uint64_t    seed = 1;
-    std::string out;
+    std::string out, mix_name = "all";
     for (int i = 1; i < argc; ++i)
     {
         std::string a   = argv[i];
@@ -108,6 +108,8 @@ int main(int argc, char** argv)
             seed = std::strtoull(nxt().c_str(), nullptr, 10);
         else if (a == "--out")
             out = nxt();
+        else if (a == "--mix")
+            mix_name = nxt();
     }
     if (kind < 0)
     {
@@ -121,6 +123,12 @@ int main(int argc, char** argv)
     for (int m : methods)
     {
         int w = (m == SIZE || m == EMPTY || m == CAP || m == SETTTL) ? 3 : ((m == CLEAR) ? 1 : 2);
+        if (mix_name == "lookup")
+        {
+            // lookup-heavy mix: few exclusive-lock operations, so that two lookups are rarely ordered through a chain of
+            // lock hand-overs and an unsynchronised access shared by lookups (a reader-lock fast path, say) stays visible
+            w = op_is_find(m) ? 12 : ((m == INS || m == INSR) ? 2 : 1);
+        }
         for (int i = 0; i < w; ++i)
             weighted.push_back(m);
     }
@@ -144,7 +152,7 @@ int main(int argc, char** argv)
         vrandom::seed(cfg.rseed);
         ICache* cache = make_cache(cfg);
         // several sub-bursts on the same instance with clock bumps in between (no thread running then)
-        for (int sb = 0; sb < 3; ++sb)
+        for (int sb = 0; sb < 5; ++sb)
         {
             std::vector<std::vector<LogRec>> logs((size_t)threads);
             std::vector<std::thread>         th;
@@ -192,7 +200,9 @@ int main(int argc, char** argv)
                     }
                 }
             total_ops += (uint64_t)threads * (uint64_t)ops_per_burst;
-            vclock::advance((int64_t)top.below(4000000) + 1);
+            // let entries expire between sub-bursts (TTLs are 0-20 ms), so that the next burst starts on a cache holding
+            // expired-but-unreaped entries: lookups, peeks included, then take their reaping paths concurrently
+            vclock::advance((int64_t)top.below(6000000) + 1);
         }
         std::string derr = cache->destroy_check();
         delete cache;
